@@ -80,11 +80,26 @@ class Recorder:
         tag = _TAG[0] * 10 + (ts_worker_id() or 0)        # identifies THIS queued trial among concurrently created ones
         ua["tag"] = tag
         self.log({"e": "enqueue", "tag": tag, "fixed": proj_fixed(fixed), "ua": proj_ua(ua)})
+        import copy
+
+        fixed_arg, ua_arg = copy.deepcopy(fixed), copy.deepcopy(ua)      # the caller's own objects
         if how == "enqueue":
-            self.study.enqueue_trial(fixed, user_attrs=ua or None)
+            self.study.enqueue_trial(fixed_arg, user_attrs=ua_arg or None)
         else:
             self.study.add_trial(optuna.trial.create_trial(state=optuna.trial.TrialState.WAITING,
-                                                           system_attrs={"fixed_params": fixed}, user_attrs=ua))
+                                                           system_attrs={"fixed_params": fixed_arg}, user_attrs=ua_arg))
+        if rng.random() < 0.6:
+            # the caller goes on using (and changing) the dicts it passed, e.g. one scratch dict filled in a loop:
+            # what was queued is the values at the time of the call
+            for k in list(fixed_arg):
+                kind = PARAMS[k]
+                fixed_arg[k] = (kind[2] if fixed_arg[k] != kind[2] else kind[1]) if kind[0] != "cat" else \
+                    [c for c in kind[1] if c != fixed_arg[k]][0]
+            for k, v in list(ua_arg.items()):
+                if isinstance(v, (list, dict)):
+                    v.clear()
+                if k != "tag":
+                    ua_arg[k] = "changed-later"
         new = [t for t in self.study.get_trials(deepcopy=False) if t.user_attrs.get("tag") == tag]
         for t in new:
             self.log({"e": "enqueued", "tag": tag, "n": t.number})
